@@ -107,7 +107,8 @@ def view_schema(package, byte_order):
                     datas=[vardata(), vardata("varStr8", "uint8", "char"), vardata("var16", "uint16", "int8")])
     m = S["messages"]
     # m1: every primitive as a root field, required
-    m.append(G("prims", 1, fields=[F("f_" + p, i + 1, p) for i, p in enumerate(PRIM_FIELDS)]))
+    m.append(G("prims", 1, fields=[F("f_" + p, i + 1, p) for i, p in enumerate(PRIM_FIELDS)]
+               + [F("o_" + p, 20 + i, p, presence="optional") for i, p in enumerate(("float", "double", "char", "uint64"))]))
     # m2: named types, optionals, arrays, enums, sets, composites, constants, custom offsets, explicit blockLength
     m.append(G("kinds", 2, blockLength=96, fields=[
         F("a", 1, "u32req"), F("b", 2, "u32opt"), F("c", 3, "i16opt"), F("s", 4, "str4"),
@@ -138,6 +139,13 @@ def view_schema(package, byte_order):
                groups=[G("cg", 10, fields=[F("k", 1, "cconst")], blockLength=2),
                        G("cg0", 11, fields=[F("k", 1, "cconst")])],
                data=[D("d", 20, "varStr8")]))
+    # m7: a flat group with an 8-bit numInGroup whose entries occupy more than
+    # 255 bytes (wide explicit blockLength), followed by further members: sizes
+    # must not be computed in the width of the numInGroup type
+    m.append(G("wide", 7, fields=[F("x", 1, "uint8")],
+               groups=[G("w", 10, dimensionType="dimCnt", fields=[F("a", 1, "uint16")], blockLength=130),
+                       G("after", 11, fields=[F("b", 1, "uint8")])],
+               data=[D("d", 20, "varStr8")]))
     return S
 
 
@@ -154,6 +162,12 @@ def header_schemas():
         ("h_counters", header(counters=("numGroups", "numVarDataFields")), dim(counters=("numGroups", "numVarDataFields"))),
         ("h_extra", header(extra=[T("reserved", "uint32"), T("hk", "uint8", presence="constant", const="1")]),
          dim(extra=[T("pad", "uint16")])),
+        ("h_refcnt", {"kind": "composite", "name": "messageHeader", "elements": [
+            T("blockLength", "uint16"), T("templateId", "uint16"), T("schemaId", "uint16"), T("version", "uint16"),
+            {"kind": "ref", "name": "numGroups", "type": "u16t"}, {"kind": "ref", "name": "numVarDataFields", "type": "u8t"}]},
+         {"kind": "composite", "name": "groupSizeEncoding", "elements": [
+             T("blockLength", "uint16"), T("numInGroup", "uint16"),
+             {"kind": "ref", "name": "numGroups", "type": "u8t"}, {"kind": "ref", "name": "numVarDataFields", "type": "u16t"}]}),
         ("h_refs", {"kind": "composite", "name": "messageHeader", "elements": [
             {"kind": "ref", "name": "blockLength", "type": "u16t"}, T("templateId", "uint16"),
             {"kind": "ref", "name": "schemaId", "type": "u16t"}, T("version", "uint16")]},
@@ -163,8 +177,9 @@ def header_schemas():
     for name, h, d in variants:
         for bo in ("littleEndian", "bigEndian"):
             S = base_schema(name + ("_be" if bo == "bigEndian" else ""), bo, hdr=h, dims=[d])
-            if name == "h_refs":
+            if name in ("h_refs", "h_refcnt"):
                 S["types"].insert(0, T("u16t", "uint16"))
+                S["types"].insert(0, T("u8t", "uint8"))
             S["messages"].append(G("m0", 1, fields=[F("x", 1, "uint16")]))
             S["messages"].append(G("m1", 2, blockLength=12, fields=[F("x", 1, "uint16"), F("y", 2, "uint32")],
                                    # member counts differ per kind at every level (2 groups / 1 data at the root,
